@@ -635,7 +635,8 @@ int utimensat(int dirfd, const char* path, const struct timespec tv[2], int flag
 	char buf[PATH_MAX];
 	const char* p = abspath(path, buf, sizeof(buf));
 	if (!under_root(p)) return REAL(utimensat)(dirfd, path, tv, flags);
-	int e = check_fail("utime", p);
+	/* "lutime" = the time-stamp of a symbolic link itself (a file system may not support it) */
+	int e = check_fail((flags & AT_SYMLINK_NOFOLLOW) ? "lutime" : "utime", p);
 	long k = sc_before("utime", p);
 	if (e) { trace("utime", p, 0, 0, 0, -1, e, k); errno = e; return -1; }
 	int r = REAL(utimensat)(dirfd, path, tv, flags);
